@@ -95,26 +95,27 @@ def dec (bits : Nat) (bs : List Nat) : DecResult :=
 
 /-! ## parity `rlp` -/
 
+/-- the total-length check of `BasicDecoder::payload_info`. -/
+def piFin (total hl vl : Nat) : Except Err (Nat × Nat) :=
+  if hl + vl ≤ total then .ok (hl, vl) else .error .rlpIsTooShort
+
 /-- `PayloadInfo::from` + the total-length check of `BasicDecoder::payload_info`: `(header_len, value_len)`. -/
 def payloadInfo (bs : List Nat) : Except Err (Nat × Nat) :=
   match bs with
   | [] => .error .rlpIsTooShort
   | l :: rest =>
-    let fin (hl vl : Nat) : Except Err (Nat × Nat) :=
-      if hl + vl ≤ bs.length then .ok (hl, vl) else .error .rlpIsTooShort
-    if l ≤ 0x7f then fin 0 1
-    else if l ≤ 0xb7 then fin 1 (l - 0x80)
-    else if 0xc0 ≤ l ∧ l ≤ 0xf7 then fin 1 (l - 0xc0)
+    let total := rest.length + 1
+    if l ≤ 0x7f then piFin total 0 1
+    else if l ≤ 0xb7 then piFin total 1 (l - 0x80)
+    else if 0xc0 ≤ l ∧ l ≤ 0xf7 then piFin total 1 (l - 0xc0)
     else
       let lol := if l ≤ 0xbf then l - 0xb7 else l - 0xf7
-      match rest with
-      | [] => .error .rlpIsTooShort
-      | b1 :: _ =>
-        if b1 = 0 then .error .rlpDataLenWithZeroPrefix
-        else if bs.length < 1 + lol then .error .rlpIsTooShort
-        else
-          let vl := beVal (rest.take lol)
-          if vl ≤ 55 then .error .rlpInvalidIndirection else fin (1 + lol) vl
+      if rest = [] then .error .rlpIsTooShort
+      else if rest.headD 1 = 0 then .error .rlpDataLenWithZeroPrefix
+      else if total < 1 + lol then .error .rlpIsTooShort
+      else
+        let vl := beVal (rest.take lol)
+        if vl ≤ 55 then .error .rlpInvalidIndirection else piFin total (1 + lol) vl
 
 /-- ruint's `rlp::Decodable for Uint` AFTER the fix: a list item is rejected, then `Rlp::data()` and
     `try_from_be_slice`. (`rlp::decode` ignores trailing bytes, so nothing is reported as consumed.) -/
